@@ -73,7 +73,10 @@ class PlaceholderSubstitutor(CopyMapper):
 
     def __init__(self, substitutions: Mapping[str, Array]) -> None:
         # Ignoring function cache, since we don't support functions anyway
-        super().__init__()
+        # (A parameter may be replaced by an equal placeholder of the caller, e.g.
+        # one that happens to be named like the parameter: not a duplicate created
+        # by mistake.)
+        super().__init__(err_on_created_duplicate=False)
         self.substitutions = substitutions
 
     def map_placeholder(self, expr: Placeholder) -> Array:
